@@ -470,51 +470,98 @@ Proof.
 Qed.
 End Unique.
 
-(* every face gets back exactly its corner positions, in order; nodes are the distinct positions *)
-Theorem c01_scrip_faces w cs : Forall (fun r => length r = w) cs ->
-  c01_faces_pos (FILL, FILL) (fst (c01_scrip cs w)) (snd (c01_scrip cs w)) = cs.
+Lemma c01_drop_rep_spec a k : forall l', ~ In a l' ->
+  c01_drop_rep (repeat a k ++ a :: l') = repeat (-1) k ++ a :: l'.
 Proof.
-  intros Hw. unfold c01_scrip. cbn [fst snd].
-  rewrite (c01_unique_table cs w Hw). unfold c01_faces_pos. rewrite map_map.
-  transitivity (map (fun r : list (Z * Z) => r) cs); [|apply map_id].
-  apply map_ext_in. intros r Hr.
-  rewrite c01_corners_nofill.
-  - rewrite map_map. transitivity (map (fun p : Z * Z => p) r); [|apply map_id].
-    apply map_ext_in. intros p Hp.
-    pose proof (c01_unique_range cs p r Hr Hp) as Hrg.
-    replace (Z.of_nat (index_of p (unique_pairs (concat cs))) =? -1) with false by lia.
-    apply (c01_unique_nth cs p r Hr Hp).
-  - apply Forall_map. apply Forall_forall. intros p Hp.
-    pose proof (c01_unique_range cs p r Hr Hp) as Hrg.
-    replace (Z.of_nat (index_of p (unique_pairs (concat cs))) =? -1) with false by lia. lia.
+  induction k as [|k IH]; intros l' Hn.
+  - simpl. destruct l' as [|y l'']; [reflexivity|].
+    destruct (a =? y) eqn:E; [|reflexivity]. exfalso. apply Hn. left. lia.
+  - change (repeat a (S k) ++ a :: l') with (a :: (repeat a k ++ a :: l')).
+    cbn [c01_drop_rep]. destruct (repeat a k ++ a :: l') as [|y t] eqn:E.
+    + destruct k; discriminate E.
+    + assert (y = a) by (destruct k; simpl in E; congruence). subst y.
+      rewrite Z.eqb_refl. rewrite <- E. rewrite IH by exact Hn. reflexivity.
 Qed.
 
-Theorem c01_scrip_std w cs : Forall (fun r => length r = w) cs ->
-  Forall (fun r => length r = w /\ Forall (fun x => 0 <= x < Z.of_nat (length (fst (c01_scrip cs w)))) r)
-         (snd (c01_scrip cs w)).
+Lemma c01_rev_repeat {A} (x : A) k : rev (repeat x k) = repeat x k.
 Proof.
-  intros Hw. unfold c01_scrip. cbn [fst snd]. rewrite (c01_unique_table cs w Hw).
-  apply Forall_map. apply Forall_forall. intros r Hr. split.
-  - rewrite map_length. rewrite Forall_forall in Hw. apply Hw. exact Hr.
-  - apply Forall_map. apply Forall_forall. intros p Hp.
-    pose proof (c01_unique_range cs p r Hr Hp) as Hrg.
-    replace (Z.of_nat (index_of p (unique_pairs (concat cs))) =? -1) with false by lia. lia.
+  induction k as [|k IH]; [reflexivity|]. simpl. rewrite IH. clear.
+  induction k; simpl; [reflexivity|]. f_equal. exact IHk.
+Qed.
+
+(* a row whose real part l' ++ [a] has a fresh last element, padded by repeating that element *)
+Lemma c01_scrip_row_ok l' a k : ~ In a l' -> Forall (fun x => 0 <= x) (l' ++ [a]) ->
+  c01_scrip_row ((l' ++ [a]) ++ repeat a k) = (l' ++ [a]) ++ repeat FILL k.
+Proof.
+  intros Hn Hpos. unfold c01_scrip_row.
+  rewrite rev_app_distr, c01_rev_repeat, rev_app_distr. simpl rev. simpl app at 2.
+  rewrite c01_drop_rep_spec by (intros X; apply Hn; apply in_rev; exact X).
+  rewrite rev_app_distr. simpl rev. rewrite rev_involutive, c01_rev_repeat.
+  rewrite <- app_assoc. simpl app at 2. rewrite <- app_assoc. simpl app at 2.
+  rewrite !map_app, c01_map_repeat. simpl map at 2. simpl (if -1 =? -1 then FILL else -1).
+  f_equal.
+  - apply c01_map_id_on. apply Forall_app in Hpos. destruct Hpos as [Hp _].
+    eapply Forall_impl; [|exact Hp]. simpl. intros x Hx. destruct (x =? -1) eqn:E; [lia|reflexivity].
+  - f_equal. apply Forall_app in Hpos. destruct Hpos as [_ Ha]. inversion Ha; subst.
+    destruct (a =? -1) eqn:E; [lia|reflexivity].
+Qed.
+
+(* was C01_scrip_padding_refuted before fix 5e414c62.  Every cell gets back exactly its corner positions,
+   in order, whatever the number of trailing repetitions of its last corner; rows are in standard form.
+   Hypothesis: the corner positions of one cell are pairwise distinct. *)
+Theorem c01_scrip_faces w (faces : list (list (Z * Z))) :
+  Forall (fun f => f <> [] /\ (length f <= w)%nat /\ NoDup f) faces ->
+  let cs := map (fun f => f ++ repeat (last f (FILL, FILL)) (w - length f)) faces in
+  c01_faces_pos (FILL, FILL) (fst (c01_scrip cs w)) (snd (c01_scrip cs w)) = faces
+  /\ std_table w (snd (c01_scrip cs w)).
+Proof.
+  intros H cs.
+  assert (Hw : Forall (fun r => length r = w) cs).
+  { unfold cs. apply Forall_map. eapply Forall_impl; [|exact H]. simpl. intros f (_ & Hl & _).
+    rewrite app_length, repeat_length. lia. }
+  unfold c01_scrip. cbn [fst snd].
+  pose proof (c01_unique_table cs w Hw (fun x => x)) as Et. rewrite map_id in Et. rewrite Et. clear Et.
+  set (u := unique_pairs (concat cs)).
+  set (G := fun p : Z * Z => Z.of_nat (index_of p u)).
+  assert (Hrow : forall f, In f faces ->
+            c01_scrip_row (map G (f ++ repeat (last f (FILL, FILL)) (w - length f)))
+              = map G f ++ repeat FILL (w - length f)
+            /\ Forall (fun x => 0 <= x) (map G f)
+            /\ map (fun i => nth (Z.to_nat i) u (FILL, FILL)) (map G f) = f).
+  { intros f Hf. rewrite Forall_forall in H. destruct (H f Hf) as (Hne & Hl & Hnd).
+    set (r := f ++ repeat (last f (FILL, FILL)) (w - length f)).
+    assert (Hr : In r cs) by (unfold cs; apply in_map_iff; exists f; split; [reflexivity|exact Hf]).
+    assert (Hin : forall p, In p f -> In p r) by (intros p Hp; unfold r; apply in_or_app; left; exact Hp).
+    assert (Hnth : forall p, In p f -> nth (Z.to_nat (G p)) u (FILL, FILL) = p)
+      by (intros p Hp; apply (c01_unique_nth cs p r Hr (Hin p Hp))).
+    assert (Hpos : Forall (fun x => 0 <= x) (map G f))
+      by (apply Forall_map; apply Forall_forall; intros p Hp; unfold G; lia).
+    split; [|split; [exact Hpos|]].
+    - destruct (exists_last Hne) as (f' & a & Ef). subst f. rewrite last_last.
+      rewrite map_app, c01_map_repeat, map_app. simpl map at 2.
+      rewrite app_length. simpl length.
+      apply c01_scrip_row_ok; [|rewrite <- map_app; exact Hpos].
+      intros X. apply in_map_iff in X. destruct X as (q & Eq & Hq).
+      apply NoDup_remove_2 in Hnd. rewrite app_nil_r in Hnd. apply Hnd.
+      assert (q = a); [|subst q; exact Hq].
+      rewrite <- (Hnth q) by (apply in_or_app; left; exact Hq).
+      rewrite <- (Hnth a) by (apply in_or_app; right; left; reflexivity). rewrite Eq. reflexivity.
+    - rewrite map_map. transitivity (map (fun p : Z * Z => p) f); [|apply map_id].
+      apply map_ext_in. intros p Hp. apply Hnth. exact Hp. }
+  split.
+  - unfold c01_faces_pos, cs. rewrite !map_map.
+    transitivity (map (fun f : list (Z * Z) => f) faces); [|apply map_id].
+    apply map_ext_in. intros f Hf. destruct (Hrow f Hf) as (E1 & E2 & E3).
+    rewrite E1, corners_std by exact E2. exact E3.
+  - unfold std_table, cs. rewrite !map_map. apply Forall_map. apply Forall_forall. intros f Hf.
+    destruct (Hrow f Hf) as (E1 & E2 & E3). rewrite E1. split.
+    + rewrite app_length, map_length, repeat_length. rewrite Forall_forall in H. destruct (H f Hf) as (_ & Hl & _). lia.
+    + exists (map G f), (w - length f)%nat. split; [reflexivity|exact E2].
 Qed.
 
 Theorem c01_scrip_nodes w cs :
   NoDup (fst (c01_scrip cs w)) /\ forall p, In p (fst (c01_scrip cs w)) <-> In p (concat cs).
 Proof. unfold c01_scrip. cbn [fst]. split; [apply unique_NoDup|intros; apply unique_In]. Qed.
-
-(* cells with fewer corners (last corner repeated, the SCRIP convention) keep the repeated corner:
-   the triangle below comes back with four corners and no padding *)
-Theorem c01_scrip_padding_refuted :
-  exists cs, snd (c01_scrip cs 4) <> c01_std 4 [[0; 1; 2; 3]; [1; 4; 2]]
-             /\ map (fun r => length (corners r)) (snd (c01_scrip cs 4)) = [4%nat; 4%nat].
-Proof.
-  (* positions: node i at (i, 10 i); second face = triangle (1,4,2) padded with its last corner *)
-  exists [[(0, 0); (1, 10); (2, 20); (3, 30)]; [(1, 10); (4, 40); (2, 20); (2, 20)]].
-  split; [vm_compute; discriminate|vm_compute; reflexivity].
-Qed.
 
 (* ------------------------------------------------------------------------------------------- *)
 (* ICON: tables stored transposed and 1-based                                                    *)
@@ -1106,8 +1153,8 @@ Example c01_exodus_nonvacuous :
 Proof. vm_compute. split; reflexivity. Qed.
 
 Example c01_scrip_nonvacuous :
-  c01_scrip [[(5, 1); (2, 2); (7, 7)]; [(2, 2); (5, 1); (9, 0)]] 3
-  = ([(2, 2); (5, 1); (7, 7); (9, 0)], [[1; 0; 2]; [0; 1; 3]]).
+  c01_scrip [[(5, 1); (2, 2); (7, 7); (9, 0)]; [(2, 2); (5, 1); (9, 0); (9, 0)]; [(7, 7); (7, 7); (7, 7); (7, 7)]] 4
+  = ([(2, 2); (5, 1); (7, 7); (9, 0)], [[1; 0; 2; 3]; [0; 1; 3; FILL]; [2; FILL; FILL; FILL]]).
 Proof. vm_compute. reflexivity. Qed.
 
 Example c01_fv_nonvacuous :
